@@ -2,6 +2,7 @@ import Casket.Proofs.Chain
 import Casket.Proofs.Cond
 import Casket.Proofs.Htpasswd
 import Casket.Proofs.AuthConc
+import Casket.Proofs.ChainAddrs
 import Casket.Generated.Directives
 /-
 C03 — Protected paths are never disclosed without valid credentials.
@@ -131,6 +132,32 @@ theorem C03_model_verdict_ok_partial (fs : FS) (cs : ChainSite) (r : CReq)
     (has : ArchiveSafe fs cs r.creds) (hbs : BackendSafe cs r.creds) :
     ChainSpec.verdict fs cs r (chainServe fs cs r) = "ok" :=
   chainServe_verdict_ok hroot hpre hrd hw hl his hss has hbs
+
+/-! ### A server block with several addresses
+
+Every address of a block is a site configuration of its own, and every directive of the block is
+set up once per address on THAT configuration (`Model/ChainAddrs.lean`).  The meaning of the block
+is one `ChainSite`; each of its addresses answers exactly as that site — in particular each one has
+the internal paths on its hide list, so that browse leaves them out of listings and archives. -/
+
+open Casket.ChainAddrs Casket.ChainAddrsProofs in
+/-- Whichever address of the block a request is sent to, it is answered by the block's site. -/
+theorem C03_every_address_same_site (fs : FS) (addrs : List Bytes) (cs : ChainSite) (host : Bytes) (r : CReq)
+    (h : host ∈ addrs) : chainServeAt fs (configsOf addrs cs) host r = chainServe fs cs r :=
+  chainServeAt_configsOf fs addrs cs host r h
+
+open Casket.ChainAddrs Casket.ChainAddrsProofs in
+/-- Hence the partial no-disclosure theorem holds at every address of the block (the link between
+model and judge for the cases of `c03.chain` that name an address). -/
+theorem C03_addrs_model_verdict_ok_partial (fs : FS) (addrs : List Bytes) (cs : ChainSite) (host : Bytes) (r : CReq)
+    (h : host ∈ addrs)
+    (hroot : NormalSegs cs.site.root) (hpre : NormalPrefix cs.site.pathPrefix) (hrd : RootIsDir fs cs.site)
+    (hw : TargetsNonEmpty cs) (hl : NoHardLinks fs)
+    (his : IndexSafe fs cs r.creds) (hss : SiblingSafe fs cs r.creds)
+    (has : ArchiveSafe fs cs r.creds) (hbs : BackendSafe cs r.creds) :
+    ChainSpec.verdict fs cs r (chainServeAt fs (configsOf addrs cs) host r) = "ok" := by
+  rw [chainServeAt_configsOf fs addrs cs host r h]
+  exact chainServe_verdict_ok hroot hpre hrd hw hl his hss has hbs
 
 /-- With directory scopes only (`DirScoped`: every resource, exclusion and internal path is a
 directory in normal form with a trailing slash, like `/secret/`), an index page or a precompressed
@@ -348,6 +375,29 @@ theorem C03_internal_prefix_fails_witness :
     chainServe wFS (wInt (b! "/docs/ind")) (wReq (b! "/docs/") []) = .served (.file 7 none) ∧
     chainServe wFS (wInt (b! "/docs/index.html")) (wReq (b! "/docs/") []) = .served (.status 404) := by
   refine ⟨by decide, by decide, by decide⟩
+
+def wIntBase : ChainSite := {
+  site := wSite [], tryfiles := none, rewrites := [], exts := [], auth := [], internal := [b! "/area/locked"], proxies := [] }
+
+open Casket.ChainAddrs in
+/-- What `C03_every_address_same_site` rests on — per-address setup.  Block `a, b { internal
+/area/locked ; browse / { servearchive tar } }`: with the code's setup both addresses refuse the
+direct URL and leave the directory out of the archive of its parent; if the hide entries were
+registered once per server block (`onceConfigs`, not the code) the SECOND address would still
+answer 404 to the direct URL but hand out the file (inode 5) in `GET /area/?archive=tar`. -/
+theorem C03_hidden_once_per_block_fails_witness :
+    (∀ host ∈ [b! "a", b! "b"],
+      chainServeAt wFS (configsOf [b! "a", b! "b"] (withInternalHidden wIntBase)) host (wReq (b! "/area/locked/l") []) = .served (.status 404) ∧
+      chainServeAt wFS (configsOf [b! "a", b! "b"] (withInternalHidden wIntBase)) host (wReq (b! "/area/?archive=tar") []) =
+        .served (.archive [⟨[b! "area", b! "free"], some 3⟩])) ∧
+    chainServeAt wFS (onceConfigs [b! "a", b! "b"] wIntBase) (b! "a") (wReq (b! "/area/?archive=tar") []) =
+      .served (.archive [⟨[b! "area", b! "free"], some 3⟩]) ∧
+    chainServeAt wFS (onceConfigs [b! "a", b! "b"] wIntBase) (b! "b") (wReq (b! "/area/locked/l") []) = .served (.status 404) ∧
+    chainServeAt wFS (onceConfigs [b! "a", b! "b"] wIntBase) (b! "b") (wReq (b! "/area/?archive=tar") []) =
+      .served (.archive [⟨[b! "area", b! "free"], some 3⟩, ⟨[b! "area", b! "locked"], none⟩, ⟨[b! "area", b! "locked", b! "l"], some 5⟩]) ∧
+    ChainSpec.verdict wFS wIntBase (wReq (b! "/area/?archive=tar") [])
+      (chainServeAt wFS (onceConfigs [b! "a", b! "b"] wIntBase) (b! "b") (wReq (b! "/area/?archive=tar") [])) ≠ "ok" := by
+  refine ⟨by decide, by decide, by decide, by decide, by decide⟩
 
 /-! ### Non-vacuity of the hypotheses of the partial theorem -/
 
